@@ -127,6 +127,26 @@ def same_source_rules(ctx, rid, fn):
         okt = any(('type(%s)' % arg) in f for f in facts)
         ctx.inst(rid, fn, 'type test of %s branch' % kind, okt,
                  "branch selected by type(%s)" % arg if okt else "branch is not selected by the exact type of the argument")
+        if kind == 'matrix' and okt:
+            # every integer-indexed Matrix class this function accepts takes the Matrix branch (a Matrix that is sent through
+            # the labelled branch is relabelled: indices that occur in no term get no entry in the returned states)
+            want = {'QUSOMatrix'} if fn.name == 'anneal_quso' else {'QUSOMatrix', 'PUSOMatrix'}
+            got = set()
+            for t, pol, o in g.edge_dominators(na):
+                pf = positive_form(t, pol)
+                for c_ in ast.walk(pf):
+                    if isinstance(c_, ast.Compare) and len(c_.ops) == 1 and src(c_.left) == 'type(%s)' % arg:
+                        r_ = c_.comparators[0]
+                        if isinstance(c_.ops[0], (ast.Eq, ast.Is)):
+                            got.add(src(r_).split('.')[-1])
+                        elif isinstance(c_.ops[0], ast.In) and isinstance(r_, (ast.Tuple, ast.List, ast.Set)):
+                            got |= {src(e).split('.')[-1] for e in r_.elts}
+            okm = want <= got and got <= {'QUSOMatrix', 'PUSOMatrix'}
+            ctx.inst(rid, fn, 'Matrix classes of the Matrix branch', okm,
+                     "the Matrix branch takes %s" % sorted(got) if okm else
+                     "the Matrix branch of %s takes %s, expected %s: the other Matrix class is relabelled like a labelled model, so "
+                     "indices between 0 and max_index that occur in no term are missing from the returned states"
+                     % (fn.name, sorted(got), sorted(want)))
 
 
 def marshalling_python(ctx, rid, fn):
@@ -557,6 +577,17 @@ def layout_agreement(ctx, rid):
         raise AnalysisError("layout_agreement: no row-major buffer access found")
 
 
+def nsp_(t):
+    return str(t).replace(' ', '')
+
+
+def _walk(n):
+    if isinstance(n, dict):
+        yield n
+        for c in n.get('inner', []) or []:
+            yield from _walk(c)
+
+
 def state_value_set(ctx, rid):
     C = ctx.cprog
     n = 0
@@ -595,6 +626,38 @@ def state_value_set(ctx, rid):
             else:
                 ok, msg = False, "state updated with `%s`" % a['op']
             ctx.inst(rid, (f.unit, fname), '%s %s %s' % (a['lhs'], a['op'], rhs), ok, msg)
+            # a start state copied from the supplied buffer is the row of THIS anneal: states[i * len_state + j] for the
+            # anneal loop's i and the element j being written
+            if a['op'] == '=' and fname in ('anneal_quso', 'anneal_puso'):
+                J = a['lhs'][len('state['):-1]
+                outer = [l['var'] for l in a['loops'] if l.get('hi') and nsp_(l['hi']) == 'num_anneals']
+                for e in _walk(rn):
+                    if e.get('kind') != 'ArraySubscriptExpr':
+                        continue
+                    base = strip(f.expand(e['inner'][0]))
+                    while base.get('kind') == 'ConditionalOperator':       # p = provided ? states : NULL
+                        alts = [strip(x) for x in base['inner'][1:]]
+                        nz = [x for x in alts if not (x.get('kind') == 'IntegerLiteral' and str(x.get('value')) == '0')
+                              and x.get('kind') not in ('GNUNullExpr', 'CXXNullPtrLiteralExpr')]
+                        if len(nz) != 1:
+                            break
+                        base = strip(f.expand(nz[0]))
+                    bt, it = nsp_(unparen(S(base))), nsp_(unparen(S(f.expand(e['inner'][1]))))
+                    whole = None
+                    if bt == 'states':
+                        whole = it
+                    elif bt.startswith('states+'):
+                        whole = bt[len('states+'):] + '+' + it
+                    if whole is None:
+                        continue
+                    forms = {'%s*len_state+%s' % (i_, J) for i_ in outer} | {'len_state*%s+%s' % (i_, J) for i_ in outer} | \
+                            {'%s+%s*len_state' % (J, i_) for i_ in outer}
+                    okr = whole in forms
+                    ctx.inst(rid, (f.unit, fname), 'row of the start state read by %s' % a['lhs'], okr,
+                             "anneal %s starts from its own row of the supplied states" % (outer[0] if outer else '?') if okr else
+                             "the start state is read from states[%s], not from row %s of the buffer (states[%s * len_state + %s]): anneals "
+                             "after the first start from another anneal's row - which by then holds that anneal's result"
+                             % (whole, outer[0] if outer else 'i', outer[0] if outer else 'i', J))
     if n < 4:
         raise AnalysisError("R11.8: fewer than 4 assignments to the state found in the kernels")
 
